@@ -18,7 +18,7 @@ MANIFEST = dict(
     category="proof",
     technique="symbolic execution of the real functions (numba kernel via py_func, both branches forked) on sympy reals; Rodrigues / Taylor-polynomial / Euler-Jacobian identities decided in a fraction field; exact rational remainder bounds; Every claim is also checked for call history: the real code is run twice in the same symbolic world (primed inputs first; same captured objects and module state) and the second result must still meet the contract on every path a concrete witness input takes; value-dependent branches inside a claim are explored path by path. The frame obligations (C19's analysis) of the modules under contract are re-established under this property's name.; Bounded stand-ins shared by all properties (labelled bounded, never counted as proved): the argument-form battery of the modules under contract (batches of 1 and 1200 rows, integer-typed values, labels / columns in other orders, extra labels); where the frame analysis finds state that outlives a call (a cache, a memo) the frame obligation becomes a dynamic purity contract against pristine process states; names the proofs replace by scipy contracts are checked to be bound to the library's functions (else a differential test).",
     text="mat_from_rph / mat_to_rph are proved (under the assumed scipy Euler contracts) to be Rz(h)Ry(p)Rx(r), a proper rotation with the stated sign conventions, and mutual inverses modulo 360 deg for |pitch|<90; the kernel's rotation-vector routine is executed on both branches and proved equal to Rodrigues' formula (large branch) and to the degree-2 Taylor polynomials of the exponential-map coefficient functions (small branch), whose neglected terms are bounded below 2^-53 at the branch threshold read from the code; the attitude-error-to-Euler-error matrix is proved to be the derivative of the Euler angles under a small platform rotation. All for every angle / rotation vector, not sampled ones.",
-    note="Assumes A1-A6 and the scipy contracts from_euler('xyz') extrinsic = Rz Ry Rx, as_euler('xyz') = (atan2(C21,C22), -asin(C20), atan2(C10,C00)), both cross-checked natively on every run (bounded check of the assumption); alternating-series remainder bound for the small branch (theorem).",
+    note="Assumes A1-A6 and the scipy contracts from_euler('xyz') extrinsic = Rz Ry Rx, as_euler('xyz') = (atan2(C21,C22), -asin(C20), atan2(C10,C00)), both cross-checked natively on every run (bounded check of the assumption); remainder bounds of the small branch proved in lean/Trig.lean (Mathlib; re-checked by lean in the thorough tier).",
 )
 LEVEL = "proof"
 LEVEL_NOTE = MANIFEST["text"]
@@ -42,8 +42,11 @@ def run(ctx):
               "scipy Rotation.from_matrix(M).as_euler('xyz', True) == (atan2(M21,M22), -asin(M20), atan2(M10,M00)) deg (assumed; cross-checked natively)",
               "sympy polys / diff, mpmath", "spec/frames.py")
     ctx.assume("|pitch| < 90 deg (cos p > 0) for the Euler round trip and Jacobian",
-               "alternating-series remainder theorem for the small-angle branch",
                "Taylor's theorem for 'derivative of the Euler angles'")
+    from props import helpers as _helpers_trig
+    ctx.guard(_helpers_trig.lean_lemmas, ctx, "C17", "Trig.lean", ['Pvx.cos_small', 'Pvx.k1_small', 'Pvx.k2_small'],
+              "remainder of the small-angle series for |rv| <= 1: |cos t - (1 - t^2/2 + t^4/24)| <= t^6 7/4320, |sin t / t - (1 - t^2/6 + t^4/120)| <= t^6 / 4410, "
+              "|(1 - cos t)/t^2 - (1/2 - t^2/24 + t^4/720)| <= t^6 / 35840", "series.mechanised")
 
     # ---- mat_from_rph ---------------------------------------------------------------
     eq_spec(ctx, "C17.rph.matrix.single", [r, p, h],
@@ -256,11 +259,12 @@ def _rotvec(ctx, py):
             ctx.obs[-1].detail = (ctx.obs[-1].detail + " | divisor: %s, norm2 in [%g, %g]" % (d, rng_x[0], rng_x[1])).strip(" |")
     # remainder bounds at the threshold (exact rationals): next omitted terms of the three series
     thr = sp.Rational(thr)
-    for nm, denom in (("cos", 720), ("k1", 5040), ("k2", 40320)):
-        rem = thr ** 3 / denom
-        ok = rem <= sp.Rational(1, 2 ** 53)
+    # constants: the remainder bounds PROVED in lean/Trig.lean (7/6, 8/7, 9/8 of the first omitted term), valid for |rv| <= 1
+    for nm, const in (("cos", sp.Rational(7, 4320)), ("k1", sp.Rational(1, 4410)), ("k2", sp.Rational(1, 35840))):
+        rem = thr ** 3 * const
+        ok = rem <= sp.Rational(1, 2 ** 53) and thr <= 1
         ctx.ob("C17.rotvec.branch_small.remainder.%s" % nm, "d", bool(ok), "exact-rational", 0.0,
-               "threshold %s: omitted term <= %s^3/%d = %s %s 2^-53" % (thr, thr, denom, sp.N(rem, 5), "<=" if ok else ">"),
+               "threshold %s (<= 1): remainder <= %s^3 * %s = %s %s 2^-53 (bound of lean/Trig.lean)" % (thr, thr, const, sp.N(rem, 5), "<=" if ok else ">"),
                cex=None if ok else dict(threshold=str(thr), omitted_term=str(sp.N(rem, 8))),
                native=None if ok else _threshold_native(py, float(thr)))
     # the polynomial value of cos must agree with 1 - k2*x up to the same remainder (orthogonality of the small branch)
